@@ -17,6 +17,7 @@ import (
 	"io"
 	"os"
 	"path/filepath"
+	"reflect"
 	"sort"
 	"strings"
 )
@@ -24,8 +25,8 @@ import (
 const modPath = "github.com/platinummonkey/go-concurrency-limits"
 
 var (
-	nYield, nPreLock, nSkippedFuncs int
-	quiet                           bool
+	nYield, nPreLock, nSkippedFuncs, nSelect int
+	quiet                                    bool
 )
 
 func main() {
@@ -40,7 +41,7 @@ func main() {
 		fail(err.Error())
 	}
 	if !quiet {
-		fmt.Printf("verif-inst: yield=%d prelock=%d skipped_cond_funcs=%d\n", nYield, nPreLock, nSkippedFuncs)
+		fmt.Printf("verif-inst: yield=%d prelock=%d skipped_cond_funcs=%d ordered_selects=%d\n", nYield, nPreLock, nSkippedFuncs, nSelect)
 	}
 }
 
@@ -292,10 +293,152 @@ func (in *inst) block(list *[]ast.Stmt) {
 				site += "#select" // a task parked here may already have armed a timer for this select
 			}
 			out = append(out, in.yieldStmt(site))
+			if sel, isSel := st.(*ast.SelectStmt); isSel {
+				if blk := in.orderedSelect(sel, site); blk != nil {
+					out = append(out, blk)
+					continue
+				}
+			}
 		}
 		out = append(out, st)
 	}
 	*list = out
+}
+
+// orderedSelect takes the Go runtime's pseudo-random choice among several
+// ready select cases away from the runtime (it is not seedable): the channel
+// operands are evaluated once into locals, the cases are polled one at a time
+// in an order drawn by the simulator (verifsim.SelectBegin, -1 = no simulator:
+// no polling), and the case that fired is re-armed so that the original
+// select statement, whose bodies stay untouched, has exactly one ready case.
+// Returns nil for selects with fewer than two communication clauses.
+func (in *inst) orderedSelect(sel *ast.SelectStmt, site string) ast.Stmt {
+	type comm struct {
+		send bool
+		ch   *ast.Expr // operand to replace
+		val  *ast.Expr // send value to replace
+	}
+	var comms []comm
+	for _, c := range sel.Body.List {
+		cc := c.(*ast.CommClause)
+		switch s := cc.Comm.(type) {
+		case nil: // default
+		case *ast.SendStmt:
+			comms = append(comms, comm{send: true, ch: &s.Chan, val: &s.Value})
+		case *ast.ExprStmt:
+			u, ok := unparen(s.X).(*ast.UnaryExpr)
+			if !ok || u.Op != token.ARROW {
+				return nil
+			}
+			comms = append(comms, comm{ch: &u.X})
+		case *ast.AssignStmt:
+			if len(s.Rhs) != 1 {
+				return nil
+			}
+			u, ok := unparen(s.Rhs[0]).(*ast.UnaryExpr)
+			if !ok || u.Op != token.ARROW {
+				return nil
+			}
+			comms = append(comms, comm{ch: &u.X})
+		default:
+			return nil
+		}
+	}
+	n := len(comms)
+	if n < 2 {
+		return nil
+	}
+	in.changed = true
+	nSelect++
+	var b strings.Builder
+	fmt.Fprintf(&b, "_vsK := verifsim.SelectBegin(%q, %d)\n", site, n)
+	for i, c := range comms {
+		if c.send {
+			fmt.Fprintf(&b, "_vsc%d := verifsim.SendOnly(%s)\n_vsv%d := %s\n", i, in.text(*c.ch), i, in.text(*c.val))
+		} else {
+			fmt.Fprintf(&b, "_vsc%d := verifsim.RecvOnly(%s)\n", i, in.text(*c.ch))
+		}
+	}
+	fmt.Fprintf(&b, "for _vsI := 0; _vsK >= 0 && _vsI < %d; _vsI++ {\n_vsHit := false\nswitch verifsim.SelectNth(_vsK, _vsI, %d) {\n", n, n)
+	for i, c := range comms {
+		fmt.Fprintf(&b, "case %d:\nselect {\n", i)
+		if c.send {
+			fmt.Fprintf(&b, "case _vsc%d <- _vsv%d:\n_vsc%d = verifsim.Sink(_vsv%d)\n", i, i, i, i)
+		} else {
+			fmt.Fprintf(&b, "case _vsX, _vsOk := <-_vsc%d:\nif _vsOk {\n_vsc%d = verifsim.Refill(_vsX)\n}\n", i, i)
+		}
+		for j := range comms {
+			if j != i {
+				fmt.Fprintf(&b, "_vsc%d = nil\n", j)
+			}
+		}
+		b.WriteString("_vsHit = true\ndefault:\n}\n")
+	}
+	b.WriteString("}\nif _vsHit {\nbreak\n}\n}\n")
+	pre := parseStmts(b.String())
+	for i, c := range comms {
+		*c.ch = ast.NewIdent(fmt.Sprintf("_vsc%d", i))
+		if c.send {
+			*c.val = ast.NewIdent(fmt.Sprintf("_vsv%d", i))
+		}
+	}
+	return &ast.BlockStmt{List: append(pre, sel)}
+}
+
+func unparen(e ast.Expr) ast.Expr {
+	for {
+		p, ok := e.(*ast.ParenExpr)
+		if !ok {
+			return e
+		}
+		e = p.X
+	}
+}
+
+func (in *inst) text(e ast.Expr) string {
+	var buf bytes.Buffer
+	if err := format.Node(&buf, in.fset, e); err != nil {
+		fail("print expression: " + err.Error())
+	}
+	return buf.String()
+}
+
+// parseStmts parses generated statements and strips their positions (they
+// belong to another file set).
+func parseStmts(src string) []ast.Stmt {
+	f, err := parser.ParseFile(token.NewFileSet(), "gen.go", "package p\nfunc _() {\n"+src+"}\n", parser.SkipObjectResolution)
+	if err != nil {
+		fail("generated code does not parse: " + err.Error() + "\n" + src)
+	}
+	body := f.Decls[0].(*ast.FuncDecl).Body
+	clearPos(reflect.ValueOf(body))
+	return body.List
+}
+
+var posType = reflect.TypeOf(token.NoPos)
+
+func clearPos(v reflect.Value) {
+	switch v.Kind() {
+	case reflect.Pointer, reflect.Interface:
+		if !v.IsNil() {
+			clearPos(v.Elem())
+		}
+	case reflect.Struct:
+		for i := 0; i < v.NumField(); i++ {
+			f := v.Field(i)
+			if f.Type() == posType {
+				if f.CanSet() {
+					f.SetInt(0)
+				}
+				continue
+			}
+			clearPos(f)
+		}
+	case reflect.Slice:
+		for i := 0; i < v.Len(); i++ {
+			clearPos(v.Index(i))
+		}
+	}
 }
 
 // lockCall: statement of the form X.Lock() / X.RLock() (addressable X).
@@ -546,6 +689,87 @@ var RootProbe func() int
 // WouldBlock is the panic value raised when the scheduler's goroutine would
 // block on a lock held by a parked task.
 type WouldBlock struct{ Site string }
+
+// SelectHook decides the order in which the ready cases of a select with n
+// communication clauses are tried: it returns a permutation index in
+// [0, n!) (capped), or -1 when no simulator is active.
+var SelectHook func(site string, n int) int
+
+// SelectBegin is called once per execution of a rewritten select statement.
+func SelectBegin(site string, n int) int {
+	if h := SelectHook; h != nil {
+		return h(site, n)
+	}
+	return -1
+}
+
+// SelectNth returns the i-th element of permutation k of 0..n-1 (k = 0 is the
+// source order; Lehmer code for n <= 5, rotation by k for larger n).
+func SelectNth(k, i, n int) int {
+	if n > 5 {
+		return (k + i) % n
+	}
+	var pool [5]int
+	for j := 0; j < n; j++ {
+		pool[j] = j
+	}
+	m := n
+	f := 1
+	for j := 2; j < n; j++ {
+		f *= j
+	}
+	// f = (n-1)!
+	for step := 0; ; step++ {
+		idx := 0
+		if f > 0 {
+			idx = (k / f) % m
+		}
+		pick := pool[idx]
+		if step == i {
+			return pick
+		}
+		copy(pool[idx:], pool[idx+1:m])
+		m--
+		if m == 0 {
+			return pick
+		}
+		k %= f
+		if m > 1 {
+			f /= m
+		} else {
+			f = 1
+		}
+	}
+}
+
+// SelectPerms is the number of distinct orders SelectHook may return for n.
+func SelectPerms(n int) int {
+	if n > 5 {
+		return n
+	}
+	f := 1
+	for j := 2; j <= n; j++ {
+		f *= j
+	}
+	return f
+}
+
+// RecvOnly / SendOnly give the channel operand of a select case a directional
+// type the helpers below can produce values of.
+func RecvOnly[T any](c <-chan T) <-chan T { return c }
+func SendOnly[T any](c chan<- T) chan<- T { return c }
+
+// Refill returns a channel from which exactly v can be received at once: the
+// value a poll already took out of the real channel.
+func Refill[T any](v T) <-chan T {
+	c := make(chan T, 1)
+	c <- v
+	return c
+}
+
+// Sink returns a channel that accepts one send at once: the poll already
+// delivered the value to the real channel.
+func Sink[T any](v T) chan<- T { return make(chan T, 1) }
 
 // Yield is a scheduling point.
 func Yield(site string) {
